@@ -364,6 +364,9 @@ func (ex *Exec) applyContract(st *State, in ssa.Instruction, ord int, name strin
 			st.setGhost(short+"_"+wt.Name, w)
 		}
 	}
+	// witnesses of native models used INSIDE the callee (its own sort / sorted-keys calls) are existential for the caller:
+	// they must neither be unknown here nor resolve to the caller's own witnesses of the same name
+	eenv.calleeWit = map[string]Value{}
 	for _, e := range spec.Ensures {
 		st.assume(eenv.evalBool(e.Expr))
 	}
